@@ -166,28 +166,28 @@ def r3(ctx):
     hstmt = util.stmt_of(helper_calls[0])
     tagged_var = u(hstmt.targets[0].elts[0]) if isinstance(hstmt, ast.Assign) and isinstance(hstmt.targets[0], ast.Tuple) else None
     ctx.require(tagged_var is not None, "result of attempt_add_phase_information is not unpacked")
-    tagged_edges = set()
-    for t in cfg.g.nodes:
-        if cfg.kind(t) == "test":
-            for lab in ("true", "false"):
-                if (tagged_var, True) in atoms(cfg.ast(t), lab == "true"):
-                    for s in cfg.succ(t, lab):
-                        tagged_edges.add((t, s))
-    hnode = cfg.node_of(hstmt)
-    for tag in TAGS:
-        nodes = _set_tag_nodes(cfg, al, tag)
+    # path summaries of one iteration (loop head -> write), values of locals propagated: `is_tagged = 0` before the
+    # branch makes the `if not is_tagged` clean-up unconditional on paths where the helper did not run
+    from sa import pathfx
+
+    try:
+        sums = pathfx.summaries(cfg, src=head, dst=wn)
+    except OverflowError as e_:
+        sums = None
+        ctx.ob(run.qual, "tag-defined-at-write", None, run.loc(cfg.ast(wn)), "too many paths through the alignment loop (%s)" % e_)
+    for tag in TAGS if sums is not None else ():
         bad = None
-        for b in cfg.succ(head, "loop"):
-            # (i) neither the tag was set nor the helper ran in THIS iteration
-            p = cfg.find_path(b, wn, avoid_nodes=nodes | {hnode})
-            if p is not None:
-                bad = [head] + p
-        # (ii) the helper ran: only its `tagged` answer excuses a missing set_tag
-        if bad is None:
-            p = cfg.find_path(hnode, wn, avoid_nodes=nodes, avoid_edges=tagged_edges, start_after=True)
-            if p is not None:
-                bad = p
-        ctx.ob(run.qual, "tag-defined-at-write:%s" % tag, bad is None, run.loc(cfg.ast(wn)), "on every path to the write, %s was set (value or None) in this iteration, or the helper ran in this iteration and reported the read as tagged" % tag if bad is None else "an alignment can be written with a stale %s tag: neither set_tag(%r, ...) nor a fresh `tagged` answer of the helper lies on the path" % (tag, tag), cfg.describe_path(bad))
+        for ps in sums:
+            set_here = any(isinstance(e_[1].func, ast.Attribute) and e_[1].func.attr == "set_tag" and u(e_[1].func.value) == al and e_[1].args and isinstance(e_[1].args[0], ast.Constant) and e_[1].args[0].value == tag for e_ in ps.effects if e_[0] == "call")
+            if set_here:
+                continue
+            ran = [e_ for e_ in ps.effects if e_[0] == "call" and u(e_[1].func) == "attempt_add_phase_information"]
+            answer = ps.env.get(tagged_var)
+            if ran and answer is not None and ps.has(u(answer), True):
+                continue  # the helper ran in this iteration and reported the read as tagged (it then set the tags itself)
+            bad = ps
+            break
+        ctx.ob(run.qual, "tag-defined-at-write:%s" % tag, bad is None, run.loc(cfg.ast(wn)), "on each of the %d paths of an iteration to the write, %s was set (value or None), or the helper ran in this iteration and reported the read as tagged" % (len(sums), tag) if bad is None else "an alignment can be written with a stale %s tag: neither set_tag(%r, ...) nor a fresh `tagged` answer of the helper lies on the path" % (tag, tag), cfg.describe_path(bad.path) if bad else None)
     # helper: tagged => all three set
     h = ctx.func(MOD + ".attempt_add_phase_information")
     hcfg = ctx.cfg(h)
@@ -224,31 +224,40 @@ def r4(ctx):
     ctx.require(len(stores) == 1, "store into read_to_haplotype not found")
     st = stores[0]
     ga = guard_atoms(cfg, cfg.node_of(st.stmt))
-    ok = ("0 == len(l)", False) in ga
-    ctx.ob(fi.qual, "no-scores-no-tag", ok, fi.loc(st.stmt), "a read without any phased variant (empty score list) is not assigned" if ok else "the assignment is not guarded by len(l) != 0")
+    # the phase set and its scores are taken from a collection of (phase set, scores): an ordered list `l` (index 0 of a
+    # descending sort) or directly `max(<items>, key=...)`; the assignment needs that collection to be non-empty
+    psdef = [(s_, v) for s_, v in util.assignments_to(fi.node, "scores") if isinstance(v, tuple) and v[0] == "unpack"]
+    choice = psdef[0][1][1] if len(psdef) == 1 else None
+    coll_names = set()
+    okc = False
+    if isinstance(choice, ast.Subscript) and isinstance(choice.value, ast.Name) and isinstance(choice.slice, ast.Constant) and choice.slice.value == 0:
+        od = util.ordering_of(fi.node, choice.value.id)
+        okc = od is not None and od[1] is not None and od[1].replace(" ", "") == "max(_[1])" and od[2] is True
+        coll_names = {choice.value.id} | ({util.root_name(od[0])} if od else set())
+    elif isinstance(choice, ast.Call) and u(choice.func) == "max" and choice.args:
+        key = [k.value for k in choice.keywords if k.arg == "key"]
+        okc = len(key) == 1 and isinstance(key[0], ast.Lambda) and u(key[0].body).replace(key[0].args.args[0].arg, "_").replace(" ", "") == "max(_[1])"
+        coll_names = {util.root_name(choice.args[0])}
+    ok = any((c_, True) in ga for c_ in coll_names)
+    ctx.ob(fi.qual, "no-scores-no-tag", ok, fi.loc(st.stmt), "a read without any phased variant (empty score collection) is not assigned" if ok else "the assignment is not guarded by the score collection (%s) being non-empty" % sorted(coll_names))
     ok = ("0 == quality", False) in ga
     ctx.ob(fi.qual, "tie-no-tag", ok, fi.loc(st.stmt), "a read whose best and second-best haplotype tie (quality == 0) is not assigned" if ok else "the assignment is not guarded by quality != 0")
     q = util.single_def(fi.node, "quality")
     lf = linear(q) if q is not None else None
     ok = lf == {"first_score": 1, "second_score": -1}
     ctx.ob(fi.qual, "quality-is-best-minus-second", ok, fi.loc(), "quality = first_score - second_score" if ok else "quality is %s" % (u(q) if q is not None else "?"))
-    # descending sort and indices 0/1
-    sorts = [c for c in ctx.prog.calls_in(fi.node) if isinstance(c.func, ast.Attribute) and c.func.attr == "sort" and u(c.func.value) == "scores_list"]
-    ok = len(sorts) == 1 and any(k.arg == "reverse" and isinstance(k.value, ast.Constant) and k.value.value is True for k in sorts[0].keywords) and any(k.arg == "key" and isinstance(k.value, ast.Lambda) and u(k.value.body).endswith("[1]") for k in sorts[0].keywords)
+    # descending order and indices 0/1
+    od = util.ordering_of(fi.node, "scores_list")
+    ok = od is not None and od[1] is not None and od[1].replace(" ", "") == "_[1]" and od[2] is True
     firsts = [(s, v) for s, v in util.assignments_to(fi.node, "first_score")]
     seconds = [(s, v) for s, v in util.assignments_to(fi.node, "second_score")]
     ok = ok and len(firsts) == 1 and isinstance(firsts[0][1], tuple) and u(firsts[0][1][1]) == "scores_list[0]" and firsts[0][1][2] == 1
     ok = ok and len(seconds) == 1 and isinstance(seconds[0][1], tuple) and u(seconds[0][1][1]) == "scores_list[1]" and seconds[0][1][2] == 1
-    ctx.ob(fi.qual, "best-and-second-of-descending-sort", ok, fi.loc(sorts[0]) if sorts else fi.loc(), "scores are sorted descending by score; best = index 0, second = index 1" if ok else "best/second are not indices 0/1 of a descending sort by score")
-    sl = util.single_def(fi.node, "scores_list")
-    ok = sl is not None and u(sl) == "list(enumerate(scores))"
-    ctx.ob(fi.qual, "haplotype-index-travels-with-score", ok, fi.loc(), "scores_list pairs each score with its haplotype index" if ok else "scores_list is not list(enumerate(scores))")
+    ctx.ob(fi.qual, "best-and-second-of-descending-sort", ok, fi.loc(), "scores are ordered descending by score; best = index 0, second = index 1" if ok else "best/second are not indices 0/1 of a descending order by score")
+    ok = od is not None and u(od[0]) == "enumerate(scores)"
+    ctx.ob(fi.qual, "haplotype-index-travels-with-score", ok, fi.loc(), "scores_list pairs each score with its haplotype index" if ok else "scores_list is not built from enumerate(scores)")
     # the winning phase set: the one with the highest maximum score
-    lsorts = [c for c in ctx.prog.calls_in(fi.node) if isinstance(c.func, ast.Attribute) and c.func.attr == "sort" and u(c.func.value) == "l"]
-    ok = len(lsorts) == 1 and any(k.arg == "reverse" and isinstance(k.value, ast.Constant) and k.value.value is True for k in lsorts[0].keywords)
-    ps = [(s, v) for s, v in util.assignments_to(fi.node, "scores") if isinstance(v, tuple)]
-    ok = ok and any(u(v[1]) == "l[0]" for s, v in ps)
-    ctx.ob(fi.qual, "phase-set-with-best-score-wins", ok, fi.loc(lsorts[0]) if lsorts else fi.loc(), "the phase set whose best haplotype score is highest is used" if ok else "phase set choice is not index 0 of a descending sort")
+    ctx.ob(fi.qual, "phase-set-with-best-score-wins", okc, fi.loc(), "the phase set whose best haplotype score is highest is used (first of a descending order by max score, or max(..., key=max score))" if okc else "phase set choice is not the entry with the highest maximum score")
     # distance tests against the linked-read cutoff are symmetric
     n_dist = 0
     for f_ in (fi, ctx.func(MOD + ".attempt_add_phase_information")):
@@ -299,7 +308,12 @@ def r4(ctx):
     unp = [v for s, v in util.assignments_to(fi.node, "phasing") if isinstance(v, tuple)]
     ok = ok and len(unp) == 1 and unp[0][2] == 1 and "variantpos_to_phaseinfo[" in u(unp[0][1])
     ctx.ob(fi.qual, "phase-info-layout-agrees", ok, fi.loc(), "(block id, phase tuple) is stored per position and unpacked in the same order" if ok else "phase info tuple layout differs between get_variant_information and its use")
-    aug = [n for n in walk_function(fi.node) if isinstance(n, ast.AugAssign) and u(n.target) == "haplotype_costs[phaseset][hap_index]"]
+    # the phase-set key of the score table is the block id unpacked together with `phasing` (whatever the local is called)
+    psname = "phaseset"
+    for s_, v_ in util.assignments_to(fi.node, "phasing"):
+        if isinstance(v_, tuple) and v_[0] == "unpack" and isinstance(s_, ast.Assign) and isinstance(s_.targets[0], ast.Tuple) and len(s_.targets[0].elts) == 2:
+            psname = u(s_.targets[0].elts[0])
+    aug = [n for n in walk_function(fi.node) if isinstance(n, ast.AugAssign) and u(n.target) == "haplotype_costs[%s][hap_index]" % psname]
     ok = len(aug) == 1 and u(aug[0].value) == "v.quality" and ("hap_allele == v.allele", True) in guard_atoms(cfg, cfg.node_of(aug[0]))
     ctx.ob(fi.qual, "score-adds-quality-on-agreement", ok, fi.loc(aug[0]) if aug else fi.loc(), "a haplotype's score grows by the allele quality exactly when the read's allele equals the haplotype's allele, within the variant's phase set" if ok else "score accumulation is not `+= v.quality` under v.allele == hap_allele into [phaseset][hap_index]")
 
